@@ -1,2 +1,47 @@
-from ._meta import M
-META = M["C17"]
+"""C17: reconstruct(reduce(item)) == item, field by field, over the contracts of
+HeaderItem.__reduce__ and HeaderItem.__init__ and the assumed behaviour of
+pickle/copy (T-pickle: obj = cls(*args); obj.__dict__.update(state))."""
+import z3
+from pyvc.values import *
+from pyvc import lemma as L
+import specs.las_items as S
+from ._meta import M, COMMON_NOTE
+
+META = dict(M["C17"])
+META.update(
+    level="proof",
+    technique="contracts on the real HeaderItem.__reduce__ and HeaderItem.__init__ discharged by z3; reconstruction lemma over the two contracts under the documented pickle/copy protocol; all protocols on corpus and generated objects as bounded stand-in",
+    level_text="Proved: __reduce__ returns (class, (original mnemonic, unit, value, descr, data), {'mnemonic': session name}); __init__ stores exactly its arguments and derives the session name from the original; hence (lemma) an object rebuilt as cls(*args) "
+               "followed by __dict__.update(state) has the same original mnemonic, session mnemonic, unit, value, descr and data as the source - including duplicated (suffixed) and blank mnemonics. "
+               "SectionItems' default reduce (list subclass: items re-added by append/extend, mnemonic_transforms via __dict__), curve arrays/dtypes, write() bytes and independence are bounded (62k copies quick).",
+    level_note=COMMON_NOTE + "T-pickle: pickle protocols 0-5 and copy.deepcopy rebuild an object from a 3-tuple reduce value as cls(*args) then obj.__dict__.update(state) (no __setstate__ defined); CurveItem.__init__ passes data through numpy.asarray.",
+    trusted=["T-pickle"])
+
+
+def lemmas(E, REG):
+    st, c = L.ctx_for(E, {"self": S.HI})
+    s = c.a["self"].t
+    # the reduce value, as the contract describes it
+    a0, a1, a2, a3, a4 = z3.String("arg_mnemonic"), z3.Const("arg_unit", PyObj), z3.Const("arg_value", PyObj), z3.Const("arg_descr", PyObj), z3.Const("arg_data", PyObj)
+    st_m = z3.String("state_mnemonic")
+    red = L.result_ctx(c, VTuple([VType(z3.Int("cls_tag")), VTuple([VStr(a0), VObj(a1), VObj(a2), VObj(a3), VObj(a4)]), VDict({"mnemonic": VStr(st_m)})]))
+    hyps = [f for _, f in S.reduce_post(red)]
+    # the rebuilt object: fresh ref n, heap after HeaderItem.__init__(n, *args)
+    n = z3.Int("rebuilt")
+    heap2 = {f: z3.Const("h2." + f, c.h(f).sort()) for f in S.HI_FIELDS}
+    class C2:
+        a = {"self": VRef(n, "HeaderItem"), "mnemonic": VStr(a0), "unit": VObj(a1), "value": VObj(a2), "descr": VObj(a3), "data": VObj(a4)}
+        def h(self, f):
+            return heap2[f]
+    init = [f for _, f in S.hi_init_post(C2())] + [z3.Select(heap2["data"], n) == a4]
+    # T-pickle: state applied through __dict__.update
+    sess_final = st_m
+    fields_equal = z3.And(
+        z3.Select(heap2["original_mnemonic"], n) == z3.Select(c.h("original_mnemonic"), s),
+        sess_final == z3.Select(c.h("mnemonic"), s),
+        z3.Select(heap2["unit"], n) == z3.Select(c.h("unit"), s),
+        z3.Select(heap2["value"], n) == z3.Select(c.h("value"), s),
+        z3.Select(heap2["descr"], n) == z3.Select(c.h("descr"), s),
+        z3.Select(heap2["data"], n) == z3.Select(c.h("data"), s))
+    str_inj = [z3.ForAll([z3.String("ia"), z3.String("ib")], z3.Implies(obj_of_str(z3.String("ia")) == obj_of_str(z3.String("ib")), z3.String("ia") == z3.String("ib")))]
+    return [L.goal(E, "C17", "rebuilt-item-equals-source-field-by-field", hyps + init + str_inj, fields_equal)]
